@@ -901,6 +901,130 @@ def run_conststate(prog, ctx=None):
     return res
 
 
+def forward_target(prog, f, qn, depth=0):
+    """name of the function a file-local forwarder stands for: a static function of the same file whose body is one
+    `return g(<its own parameters, in part>)`; anything else is itself"""
+    cands = [g for g in prog.by_qn.get(qn, []) if g.static and g.file == f.file and not g.nocfg]
+    if len(cands) != 1 or depth > 3:
+        return qn
+    g = cands[0]
+    pids = {p.get("id") for p in g.params}
+    target = None
+    for b, i, e in g.elements():
+        if e.get("k") == "ret" and e.get("e") is not None:
+            x = strip(e["e"], all_casts=True)
+            if x.get("k") == "call" and callee_name(x) and all(
+                    strip(a, all_casts=True).get("k") == "ref" and strip(a, all_casts=True)["d"].get("id") in pids for a in x.get("args", [])):
+                if target is not None:
+                    return qn
+                target = callee_name(x)
+            else:
+                return qn
+        elif e.get("k") == "call":
+            continue          # the call element of the return expression itself
+        elif e.get("k") in ("cast", "ref", "decl") or (e.get("k") == "cast" and f.T(e.get("t")).get("k") == "void"):
+            continue          # `(void) unused;`
+        else:
+            # any other statement makes it more than a forwarder
+            if e.get("k") not in ("cast",):
+                return qn
+    if target is None:
+        return qn
+    return forward_target(prog, g, target, depth + 1)
+
+
+def param_tests(prog, f):
+    """parameter position -> sorted boundaries (as 2*x+1 integers) at which the function compares that integer parameter with
+    a constant (`p < c` cuts below c, `p <= c` above, `p == c` / `p != c` / `!p` on both sides); for unsigned parameters the
+    cut below zero is no cut"""
+    pos = {}
+    for j, p in enumerate(f.params):
+        T = f.T(p.get("t"))
+        if T.get("k") in ("int", "enum", "bool") and "id" in p:
+            pos[p["id"]] = (j, T)
+    if not pos:
+        return {}
+    out = {}
+
+    def par(x):
+        x = strip(x, all_casts=True)
+        if x.get("k") == "ref" and x["d"].get("id") in pos:
+            return pos[x["d"]["id"]]
+        return None
+    trees = []
+    for bid, blk in f.blocks.items():
+        trees.extend(blk.el)
+        if blk.term and isinstance(blk.term.get("cond"), dict):
+            trees.append(blk.term["cond"])
+    seen = set()
+    for t in trees:
+        for n in walk(t):
+            if id(n) in seen:
+                continue
+            seen.add(id(n))
+            if n.get("k") == "bin" and n.get("op") in ("<", "<=", ">", ">=", "==", "!="):
+                for x, y, flip in ((n["a"], n["b"], False), (n["b"], n["a"], True)):
+                    c = cval(y)
+                    pj = par(x) if c is not None else None
+                    if pj is None:
+                        continue
+                    op = n["op"]
+                    if flip:
+                        op = {"<": ">", "<=": ">=", ">": "<", ">=": "<="}.get(op, op)
+                    c = int(c)
+                    if op in ("<", ">="):
+                        bs = {2 * c - 1}
+                    elif op in ("<=", ">"):
+                        bs = {2 * c + 1}
+                    else:
+                        bs = {2 * c - 1, 2 * c + 1}
+                    if not pj[1].get("signed", True):
+                        bs = {b for b in bs if b > 0}
+                    out.setdefault(pj[0], set()).update(bs)
+            elif n.get("k") == "un" and n.get("op") == "!":
+                pj = par(n["e"])
+                if pj is not None:
+                    bs = {-1, 1} if pj[1].get("signed", True) else {1}
+                    out.setdefault(pj[0], set()).update(bs)
+    return {str(k): sorted(v) for k, v in out.items() if v}
+
+
+def run_paramclass(prog, ctx=None):
+    """PARAMCLASS (reference table): the boundaries at which a function compares an integer parameter with constants (`points <
+    1`: a cut between 0 and 1) are part of what it does for which arguments.  mustcheck.json records them per function and
+    parameter position for the unchanged tree; a function that still has that parameter but no longer cuts where it did
+    *and* cuts somewhere new has moved a case limit (`< 1` to `< 2`, `<= max` to `< max`): the arguments between the two cuts
+    are handled as their neighbours were.  Cuts that only vanished (a test moved into a helper) or were added are not judged."""
+    import json as _json, os as _os
+    res = Result("PARAMCLASS")
+    ref = _json.load(open(_os.path.join(_os.path.dirname(_os.path.abspath(__file__)), "mustcheck.json"))).get("ptests")
+    if not ref:
+        raise Broken("PARAMCLASS: the reference table has no parameter tests")
+    byname = {}
+    for f in prog.functions.values():
+        byname.setdefault(f.file + ":" + f.qn, f)
+    matched = 0
+    for k, ent in sorted(ref.items()):
+        f = byname.get(k)
+        if f is None or f.nocfg:
+            continue
+        matched += 1
+        cur = param_tests(prog, f)
+        for j, bs in sorted(ent.items()):
+            if int(j) >= len(f.params) or f.T(f.params[int(j)].get("t")).get("k") not in ("int", "enum", "bool"):
+                continue
+            now = set(cur.get(j, []))
+            gone = sorted(set(bs) - now)
+            new = sorted(now - set(bs))
+            ok = not (gone and new)
+            res.ob("%s:parameter %s (%s)" % (k.split(":", 1)[1], j, f.params[int(j)].get("n", "?")), ok, f, f.line,
+                   "" if ok else "%s compared its parameter %s with constants at the cuts %s in the reference tree and does so at %s now: the cut at %s moved to %s, arguments between them are handled like their neighbours" % (
+                       f.qn, f.params[int(j)].get("n", j), [b / 2 for b in bs], [b / 2 for b in sorted(now)], [b / 2 for b in gone], [b / 2 for b in new]))
+    if matched < len(ref) * 3 // 4:
+        raise Broken("PARAMCLASS: only %d of the %d functions of the reference table still exist" % (matched, len(ref)))
+    return res
+
+
 def const_interface(prog):
     """{file:function -> {"ret": sorted constants the function can return (interval analysis: returns whose value is one number),
                           "args": {"callee#position": sorted constants passed there; "~" when a computed value is passed}}}"""
@@ -945,6 +1069,13 @@ def const_interface(prog):
                 if not nm:
                     continue
                 for j, a in enumerate(e.get("args", [])):
+                    sa_ = strip(a, all_casts=True)
+                    if sa_.get("k") == "un" and sa_.get("op") == "&":
+                        sa_ = strip(sa_["e"], all_casts=True)
+                    if sa_.get("k") == "ref" and sa_["d"].get("dk") == "fn":
+                        # a function handed on as callback: which one it is, file-local forwarders looked through
+                        args.setdefault("%s#%d" % (nm, j), set()).add("&" + forward_target(prog, f, sa_["d"].get("qn") or sa_["d"]["n"]))
+                        continue
                     if f.T(strip(a, all_casts=True).get("t")).get("k") not in ("int", "bool", "enum") and cval(a) is None:
                         continue
                     v = cval(a)
